@@ -452,8 +452,16 @@ func (e *Enc) encodeInstr(in ssa.Instruction) {
 	case *ssa.MapUpdate:
 		e.encodeMapUpdate(x)
 	case *ssa.Range:
-		// iterator is opaque; Next is modelled as a havoc over the ranged collection
+		// iterator is opaque; Next is modelled as a havoc over the ranged collection.
+		// For maps a ghost set records the keys already delivered (exit: every key was delivered).
 		e.vals[x] = Val{T: IntLit(0), Typ: x.Type()}
+		if mt, ok := x.X.Type().Underlying().(*types.Map); ok {
+			key := e.seenKey(x)
+			ks := e.sortOf(mt.Key())
+			c := e.declare("H0_"+sanitize(key), ArraySort(ks, SBool))
+			e.heap0[key] = c
+			e.cur.heap[key] = mk(ArraySort(ks, SBool), fmt.Sprintf("((as const (Array %s Bool)) false)", ks))
+		}
 	case *ssa.Next:
 		e.encodeNext(x)
 	case *ssa.Select, *ssa.Send:
@@ -487,7 +495,7 @@ func (e *Enc) encodeAlloc(x *ssa.Alloc) {
 	}
 	r := e.newRef("new_" + x.Comment)
 	c := e.bind(x, r)
-	e.allocs = append(e.allocs, allocRec{instr: x, ref: c, typ: elem, block: e.curBlock})
+	e.allocs = append(e.allocs, allocRec{val: x, instr: x, ref: c, typ: elem, block: e.curBlock})
 	switch u := elem.Underlying().(type) {
 	case *types.Struct:
 		if _, local, _ := e.p.structSortName(elem); local {
@@ -624,6 +632,27 @@ func (e *Enc) encodeMapUpdate(x *ssa.MapUpdate) {
 	e.assume(Ne(m, IntLit(0)))
 	e.frameObligation(x, "mapupdate", e.p.mapKey(mt), m, x.Pos())
 	e.writersObligation(e.p.mapKey(mt), m, x.Pos())
+	if e.fc != nil {
+		for i, at := range e.fc.At {
+			if at.Callee != "mapupdate" {
+				continue
+			}
+			env := e.fnEnv(e.cur)
+			env.vars["m"] = TV{T: m, Typ: x.Map.Type()}
+			env.vars["k"] = TV{T: k, Typ: x.Key.Type()}
+			env.vars["v"] = TV{T: v, Typ: x.Value.Type()}
+			label := at.Clause.Label
+			if label == "" {
+				label = "a" + itoa(i)
+			}
+			t, err := env.Eval(at.Clause.Expr)
+			if err != nil {
+				e.contractError(e.name, at.Clause, err, x.Pos())
+				continue
+			}
+			e.oblige("at", "mapupdate/"+label, x.Pos(), t.T, at.Clause.Props, "at mapupdate requires "+at.Clause.Src)
+		}
+	}
 	mk := e.p.mapKey(mt)
 	hk, vk := mapHasKey(mk), mapValKey(mk)
 	h := e.heapGet(e.cur, hk)
@@ -648,10 +677,19 @@ func (e *Enc) encodeNext(x *ssa.Next) {
 	m := e.termOf(rng.X)
 	mk := e.p.mapKey(mt)
 	k := e.fresh("next_k", e.sortOf(mt.Key()))
-	has := Select(Select(e.heapGet(e.cur, mapHasKey(mk)), m), k)
+	hasArr := Select(e.heapGet(e.cur, mapHasKey(mk)), m)
+	has := Select(hasArr, k)
 	val := Select(Select(e.heapGet(e.cur, mapValKey(mk)), m), k)
 	v := e.fresh("next_v", e.sortOf(mt.Elem()))
 	e.assume(Implies(okc, And(has, Eq(v, val), Ne(m, IntLit(0)))))
+	// ghost: keys delivered so far
+	skey := e.seenKey(rng)
+	if seen, ok := e.cur.heap[skey]; ok {
+		e.assume(Implies(okc, Not(Select(seen, k))))
+		q := fmt.Sprintf("(forall ((qk %s)) (! (=> (select %s qk) (select %s qk)) :pattern ((select %s qk))))", e.sortOf(mt.Key()), hasArr.S, seen.S, hasArr.S)
+		e.assume(Implies(Not(okc), Or(Eq(m, IntLit(0)), mk2(SBool, q))))
+		e.cur.heap[skey] = e.define("seen", Ite(okc, Store(seen, k, True), seen))
+	}
 	e.assume(e.typeInv(k, mt.Key(), e.cur.now))
 	e.assume(e.typeInv(v, mt.Elem(), e.cur.now))
 	e.vals[x] = Val{Tuple: []Val{{T: okc}, {T: k, Typ: mt.Key()}, {T: v, Typ: mt.Elem()}}, Typ: x.Type()}
@@ -1160,3 +1198,5 @@ func (e *Enc) implements(dyn Term, iface types.Type) Term {
 }
 
 var _ = strings.Contains
+
+func (e *Enc) seenKey(r *ssa.Range) string { return "gh|$seen|" + e.prefix + r.Name() }
